@@ -165,6 +165,8 @@ var patternsB = []patternB{
 	{"readers_then_writers", [][]opB{{{"dotx", "rD"}, {"dotx", "wC"}}, {{"dotx", "rA"}}, {{"dotx", "wB"}}}, false},
 	{"independent", [][]opB{{{"dotx", "tC"}}, {{"dotx", "sB1"}}, {{"dotx", "rD"}}}, false},
 	{"select_select", [][]opB{{{"select", "B"}}, {{"select", "B"}}, {{"dotx", "sB1"}}}, false},
+	{"select_short", [][]opB{{{"select", "B:1000"}}, {{"select", "B:1000"}}, {{"select", "B:1000"}}}, false},
+	{"select_short_seq", [][]opB{{{"select", "B:1000"}, {"select", "B:1000"}, {"select", "B:1000"}}, {{"dotx", "tC"}}}, false},
 	{"play_vs_dotx", [][]opB{{{"play", "k2"}}, {{"dotx", "wB"}}, {{"dotx", "wC"}}}, false},
 	{"lock_rrww3", [][]opB{{{"dotx", "rD"}, {"dotx", "wC"}}, {{"dotx", "rA"}}, {{"dotx", "wB"}}}, true},
 	{"lock_rrww4", [][]opB{{{"dotx", "rD"}}, {{"dotx", "rA"}}, {{"dotx", "wB"}}, {{"dotx", "wC"}}}, true},
@@ -246,7 +248,12 @@ func newB(p patternB, withKV bool) func() vsched.Instance {
 						}
 						hm.Unlock()
 					case "select":
-						ins, _, _, err := inst.W.State.SelectUtxos(world.Addr(op.Arg), big.NewInt(1), true, false)
+						who, need := op.Arg, int64(1)
+						if j := strings.IndexByte(who, ':'); j >= 0 {
+							fmt.Sscan(who[j+1:], &need)
+							who = who[:j]
+						}
+						ins, _, _, err := inst.W.State.SelectUtxos(world.Addr(who), big.NewInt(need), true, false)
 						var keys []string
 						if err == nil {
 							for _, in := range ins {
